@@ -473,3 +473,15 @@ Proof. vm_compute. split; reflexivity. Qed.
 
 Example ex_oversize : dispatcher_check ex_cfg (ex_msg 1 165) = DRejectTooLarge /\ dispatcher_check ex_cfg (ex_msg 1 164) = DForward.
 Proof. vm_compute. split; reflexivity. Qed.
+
+(* Observation (not a violation of C16): the loop's `output` is not recomputed after a `continue`, so a buffer that a
+   response has just emptied can still be handed to the bridge — an empty produce request.  MaxMessages = 1, no triggers:
+   m1 buffered (ready); m2 waits for space; a response drops m1's partition for a retry and m2 must be retried too;
+   the stale `output` then offers the fresh, empty buffer. *)
+Definition ex_cfg2 : cfg :=
+  {| c_version := (0, 11, 0, 0); c_max_message_bytes := 200; c_flush_messages := 0; c_flush_bytes := 0;
+     c_flush_frequency := 0; c_max_messages := 1; c_max_request_size := 104857600 |}.
+Example ex_empty_handoff :
+  snd (run ex_cfg2 binit [EvMsg (ex_msg 1 20) false; EvMsg (ex_msg 2 30) false; EvResponse [(0, 0)] true; EvHandOff])
+  = [Retried (ex_msg 2 30); Sent empty_set].
+Proof. vm_compute. reflexivity. Qed.
